@@ -69,6 +69,19 @@ MISSED_FIRST = {  # the property's own check missed it before it was strengthene
     "C18-i": "C18: the size filter evaluated together with the other options of the analysis (supplied interface widths far wider than the small clusters, requested modes)",
     "C20-h": "C20: statistics of emulsions whose members' volumes are not the sphere volume of their radius (2-D perturbed droplets with non-zero amplitudes)",
     "C20-i": "C20: droplets arriving through every kind of iterable (list, tuple, generator, iterator, map, Emulsion) x constructor / extend x consistency check",
+    "C02-j": "C02: corpus images whose contacts across ONE periodic boundary form a cycle (4 pieces, non-winding) and a tilted lamella; first caught only by the four-fold deepened random stream",
+    "C03-i": "C03: the droplet asked for is compared with the object after rendering (a centre outside the box on a periodic axis silently replaced by its image)",
+    "C04-i": "C04: callers limiting the solver's effort (max_nfev 1..5); the tap no longer evaluates the residual after the solver returned (that evaluation repaired - and hid - the result); the clause is evaluated on the RETURNED droplet with an independent rendering. Reported as a diverging correspondence (the worse droplet needs a rejected last step: no failing input in the quick stream)",
+    "C08-j": "C08: stationary stretches (the same non-empty frame recorded again at later times)",
+    "C09-i": "C09: the analysis driven frame after frame through the public tracker (refine x modes x 3-D / cylindrical / 2-D grids); the stream was written after reading the sub-agent's report",
+    "C10-j": "C10: distance queries after remove_overlapping on the same emulsion object (with the radius-subtracted query first)",
+    "C11-j": "C11: nearly (not exactly) equal radii, from 1e-15 to 1e-5 relative difference; before that only the broken translation was reported",
+    "C15-j": "C15: the same field object analysed with workers, updated in place, analysed again",
+    "C16-i": "C16: fluctuations far smaller than the mean (2**-10 on 50) with a cancellation-free reference for the Parseval sum",
+    "C17-i": "C17: corpus images with diagonal-only contacts (corner-touching squares, a tilted one-cell filament) under every whole-cell translation along each axis",
+    "C18-j": "C18: every threshold rule with refine_args (intensity levels, tolerance) present while refinement is off",
+    "C19-j": "C19: droplets cut by a wall of a non-periodic box (fitted centre outside the grid) in the table",
+    "C20-j": "C20: nearest-time lookup after clear() and refilling the same object with as many members at other times",
     "C20-g": "C20: consistency requested while droplets arrive through another collection (extend / constructor with a mixed Emulsion)",
 }
 rows = []
